@@ -8,7 +8,7 @@ CONSTANTS
   Cuts = FALSE
   SectorSize = 32
   MaxFaults = 1
-  MaxRetry = 1
+  MaxRetry = 0
   Kinds = {"T2", "T1S"}
   Sizes = {1, 3}
   Pads = {1}
